@@ -3,8 +3,10 @@
 package checks
 
 import (
+	"fmt"
 	"os"
 	"testing"
+	"verifh/ref"
 
 	"pgregory.net/rapid"
 
@@ -29,6 +31,15 @@ func c15NonTrivial(m behMember, merged cfg.Config) bool {
 		}
 	}
 	return false
+}
+
+// c15OnReject: placeholders count as declared - a configuration the reference analysis accepts must be accepted.
+func c15OnReject(t tb, m behMember, merged cfg.Config, o Outcome) {
+	if a := ref.Analyse(merged); a.Stage(false, false) == "accept" {
+		violation(t, "valid-configuration-rejected", fmt.Sprintf("a configuration with placeholders that is valid by the documented rules was rejected: %v", o.Report.Errors), behCase{Members: []behMember{m}})
+		return
+	}
+	ev.Get().Exclude("rejected-by-tool")
 }
 
 func c15Check(t tb, bc behContext) {
@@ -168,7 +179,7 @@ func TestC15(t *testing.T) {
 			verdictEvalAndClean(t, cfgCase{C: rc.Members[0].Files[0], Style: rc.Members[0].Style})
 			return
 		}
-		behBatch(t, rc, c15NonTrivial, c15Check, nil)
+		behBatch(t, rc, c15NonTrivial, c15Check, c15OnReject)
 	}
 	if p := os.Getenv("VERIF_REPLAY"); p != "" {
 		stored(p)
@@ -212,7 +223,7 @@ func TestC15(t *testing.T) {
 		members = append(members, behMember{Files: []cfg.Config{c}, Script: fx.Script{Ops: ops, Timeout: 300}, Labels: []string{"exhaustive-histories"}})
 	}
 	if len(members) > 0 {
-		behBatch(t, behCase{Members: members}, c15NonTrivial, c15Check, nil)
+		behBatch(t, behCase{Members: members}, c15NonTrivial, c15Check, c15OnReject)
 	}
 	col.Exhaustive("every history of length <= 3 (quick) / 4 (thorough) over {GetParam x2-3, Get x2, GetTaggedBy, OverrideParam x2, OverrideService x1-2} on two small configurations with todo parameters/services, dependants, counted parameter functions, a decorator and three scopes")
 
@@ -239,7 +250,7 @@ func TestC15(t *testing.T) {
 			m.Script = fx.Script{Ops: drawOverrideHistory(rt, conf, 8), Env: scriptAll(conf).Env}
 			c.Members = append(c.Members, m)
 		}
-		behBatch(rt, c, c15NonTrivial, c15Check, nil)
+		behBatch(rt, c, c15NonTrivial, c15Check, c15OnReject)
 	})
 	if !deadlinePassed() {
 		col.Complete()
